@@ -128,6 +128,9 @@ class Check:
         exit_code = 0
         lines = []
         os.makedirs(REPLAY, exist_ok=True)
+        for f in os.listdir(REPLAY):         # replay files of earlier runs of this check are stale
+            if f.startswith(self.pid + "-") and f.endswith(".json"):
+                os.unlink(os.path.join(REPLAY, f))
         undecided = []
         known_obl = []
         for it in failed:
@@ -149,7 +152,8 @@ class Check:
                     failing = oracle(it)
                 except Exception as e:   # replay harness problems never become verdicts
                     failing = None
-                    it["replay_error"] = repr(e)[:500]
+                    it["replay_error"] = repr(e)[:1500]
+                    print("REPLAY-HARNESS problem for %s: %s" % (it["name"], it["replay_error"]), file=sys.stderr)
             if failing is not None:
                 # a failing input that is itself a known finding?
                 hit = None
@@ -173,6 +177,25 @@ class Check:
                 lines.append("VIOLATION property=%s replay=%s no-failing-input-found" % (self.pid, path))
             else:
                 undecided.append(it)
+        # functions the verifier could not bring within reach (unsupported construct after a code change): the
+        # obligations are undecided; the replay oracle is still asked for a failing input on the real code
+        still_errors = []
+        for where, err in self.errors:
+            pseudo = dict(name="undecided:%s" % where, clause=err, model=None, status="unknown", reason=err,
+                          func=where, key="undecided:" + where)
+            failing = None
+            if oracle is not None and not self.violations:
+                try:
+                    failing = oracle(pseudo)
+                except Exception as e:
+                    print("REPLAY-HARNESS problem for %s: %r" % (where, e), file=sys.stderr)
+            if failing is not None and not any(known_matcher and known_matcher(failing, k) for k in known):
+                path = self._write_replay(pseudo, failing)
+                self.violations.append(dict(obligation=pseudo["name"], replay=path, failing_input=failing))
+                lines.append("VIOLATION property=%s replay=%s" % (self.pid, path))
+            else:
+                still_errors.append((where, err))
+        self.errors = still_errors if not self.violations else self.errors
         for f in self.native_failures:
             hit = None
             for k in known:
@@ -250,7 +273,10 @@ class Check:
         }
         ev["coverage"].update(self.extra)
         os.makedirs(EVID, exist_ok=True)
-        with open(os.path.join(EVID, "%s.json" % self.pid), "w") as f:
+        evpath = os.path.join(EVID, "%s.json" % self.pid)
+        if os.environ.get("PYVC_NOEVIDENCE") == "1":      # development runs against scratch copies
+            evpath = os.path.join("/tmp", "pyvc-evidence-%s.json" % self.pid)
+        with open(evpath, "w") as f:
             json.dump(ev, f, indent=1, default=str)
         print("%s %s: %d/%d obligations discharged, %d violation(s), %d undecided, %d known finding(s), %.1fs -> exit %d"
               % (self.pid, self.tier, n_dis, n_ob, len(self.violations), len(undecided) + len(self.errors),
